@@ -342,6 +342,20 @@ namespace bloch::runtime {
         // Test helper to observe whether the GC worker was started for this run.
         bool gcThreadStartedForTest() const { return m_gcThreadStarted; }
 
+#ifdef BLOCH_VERIF
+        // Verification hooks; add-only, compiled out by default.
+        const QasmSimulator& verifSim() const { return m_sim; }
+        // Collection schedule: 0 = unhooked (timer thread + allocation pressure),
+        // 1 = natural without the timer thread, 2 = never, 3 = at every statement
+        // boundary, 4 = at the boundaries whose bit is set in verifGcMask (cyclic).
+        static int verifGcMode;
+        static std::vector<unsigned char> verifGcMask;
+        static unsigned long long verifGcCollections;  // collections that examined a heap
+        static unsigned long long verifGcSwept;        // objects cleared by the collector
+        unsigned long long m_verifGcBoundary = 0;
+        void verifGcPoll();
+#endif
+
         // Generic templates (stored by base class name without arguments)
         std::unordered_map<std::string, compiler::ClassDeclaration*> m_genericTemplates;
     };
